@@ -37,8 +37,8 @@ REAL = ['pyasn1.codec.streaming (asSeekableStream, CachingStreamWrapper, readFro
         'pyasn1.codec.{ber,cer,der}.decoder', 'CPython io.BytesIO, open(), gzip, zipfile, io.BufferedReader']
 STUB = ['SimPipe / SimFile / RawPipe doubles', 'reference model of a seekable stream (bytes + position + mark)']
 
-KINDS = ['bytesio', 'octetstring', 'any', 'file', 'gzip', 'zip', 'bz2', 'lzma', 'buffered-pipe', 'os-pipe', 'simpipe', 'simfile',
-         'wrapped-simpipe']
+KINDS = ['bytesio', 'octetstring', 'any', 'file', 'rawfile', 'gzip', 'zip', 'bz2', 'lzma', 'buffered-pipe', 'os-pipe', 'simpipe',
+         'simfile', 'wrapped-simpipe']
 
 
 # ---------------------------------------------------------------------------
@@ -137,6 +137,13 @@ def open_kind(kind, b, bufsize=None):
         fh = os.fdopen(rfd, 'rb', buffering=0)
         return Opened(fh, (fh,))
     d = _tmpdir()
+    if kind == 'rawfile':
+        # an unbuffered binary file (io.FileIO): seekable, every read a system call
+        path = os.path.join(d, 'r.bin')
+        with open(path, 'wb') as f:
+            f.write(b)
+        fh = open(path, 'rb', buffering=0)
+        return Opened(fh, (fh,))
     if kind == 'file':
         path = os.path.join(d, 'f.bin')
         with open(path, 'wb') as f:
@@ -341,7 +348,7 @@ def _outcomes(dec, opened, spec, kw, nmax, steps=None):
     return one, st
 
 
-STREAM_OBJECT_KINDS = ('bytesio', 'file', 'gzip', 'zip', 'bz2', 'lzma', 'buffered-pipe', 'os-pipe', 'simpipe', 'simfile')
+STREAM_OBJECT_KINDS = ('bytesio', 'file', 'rawfile', 'gzip', 'zip', 'bz2', 'lzma', 'buffered-pipe', 'os-pipe', 'simpipe', 'simfile')
 
 
 def _per_message(dec, opened, spec, kw, n):
